@@ -221,7 +221,7 @@ func reqFact(kind, pat string) func(st *State) int {
 }
 
 func isReq4(code string) func(st *State) int {
-	return reqFact("bool", `^\(\*`+reQ(pkgDHCP4)+`\.DHCPv4\)\.IsOptionRequested(@t\d+)?\(\$0,`+reQ(code)+`\)$`)
+	return reqFact("bool", `^\(\*`+reQ(pkgDHCP4)+`\.DHCPv4\)\.IsOptionRequested(@(?:[\w$]+·)?t\d+)?\(\$0,`+reQ(code)+`\)$`)
 }
 
 func always(st *State) int { return 1 }
@@ -236,7 +236,7 @@ func ruleOptions(c *Ctx, prefix string) {
 	specs := []optSpec{
 		{Pkg: "dns", Fn: "Handler4", RespIdx: 1, Rows: []optRow{{Name: "dns v4", Code: k4("OptionDomainNameServer"), Gate: isReq4(k4("OptionDomainNameServer")), Global: []string{pp + "dns.dnsServers4"}, Stop: &fa}}},
 		{Pkg: "dns", Fn: "Handler6", RespIdx: 1, Rows: []optRow{{Name: "dns v6", Code: k6("OptionDNSRecursiveNameServer"),
-			Gate:   reqFact("bool", `^\(\*`+reQ(pkgDHCP6)+`\.Message\)\.IsOptionRequested(@t\d+)?\(`+inner6+`,`+reQ(k6("OptionDNSRecursiveNameServer"))+`\)$`),
+			Gate:   reqFact("bool", `^\(\*`+reQ(pkgDHCP6)+`\.Message\)\.IsOptionRequested(@(?:[\w$]+·)?t\d+)?\(`+inner6+`,`+reQ(k6("OptionDNSRecursiveNameServer"))+`\)$`),
 			Global: []string{pp + "dns.dnsServers6"}, Stop: &fa}}},
 		{Pkg: "mtu", Fn: "Handler4", RespIdx: 1, Rows: []optRow{{Name: "mtu", Code: k4("OptionInterfaceMTU"), Gate: isReq4(k4("OptionInterfaceMTU")), Global: []string{pp + "mtu.mtu"}, Stop: &fa}}},
 		{Pkg: "netmask", Fn: "Handler4", RespIdx: 1, Rows: []optRow{{Name: "netmask", Code: k4("OptionSubnetMask"), Gate: always, Global: []string{pp + "netmask.netmask"}, Stop: &fa}}},
@@ -249,7 +249,7 @@ func ruleOptions(c *Ctx, prefix string) {
 		{Pkg: "leasetime", Fn: "Handler4", RespIdx: 1, Rows: []optRow{{Name: "lease_time", Code: k4("OptionIPAddressLeaseTime"),
 			Gate: func(st *State) int {
 				op, _ := histEq(st, regexp.MustCompile(`^\$0\.OpCode$`), boot)
-				has, _ := histFact(st, "bool", regexp.MustCompile(`^\(`+reQ(pkgDHCP4)+`\.Options\)\.Has(@t\d+)?\(\$1\.Options,`+reQ(k4("OptionIPAddressLeaseTime"))+`\)$`))
+				has, _ := histFact(st, "bool", regexp.MustCompile(`^\(`+reQ(pkgDHCP4)+`\.Options\)\.Has(@(?:[\w$]+·)?t\d+)?\(\$1\.Options,`+reQ(k4("OptionIPAddressLeaseTime"))+`\)$`))
 				return and3(op, not3(has))
 			},
 			Global: []string{pp + "leasetime.v4LeaseTime"}, Stop: &fa}}},
@@ -259,10 +259,10 @@ func ruleOptions(c *Ctx, prefix string) {
 				req := isReq4(code)(st)
 				// "explicitly lists it": the request list must be known present, or membership is tested on the list itself
 				prl := k4("OptionParameterRequestList")
-				has, _ := histFact(st, "bool", regexp.MustCompile(`^\(`+reQ(pkgDHCP4)+`\.Options\)\.Has(@t\d+)?\(\$0\.Options,`+reQ(prl)+`\)$`))
-				lstNil, _ := histFact(st, "nil", regexp.MustCompile(`^\(\*`+reQ(pkgDHCP4)+`\.DHCPv4\)\.ParameterRequestList(@t\d+)?\(\$0\)$`))
+				has, _ := histFact(st, "bool", regexp.MustCompile(`^\(`+reQ(pkgDHCP4)+`\.Options\)\.Has(@(?:[\w$]+·)?t\d+)?\(\$0\.Options,`+reQ(prl)+`\)$`))
+				lstNil, _ := histFact(st, "nil", regexp.MustCompile(`^\(\*`+reQ(pkgDHCP4)+`\.DHCPv4\)\.ParameterRequestList(@(?:[\w$]+·)?t\d+)?\(\$0\)$`))
 				lenPos, _ := histFact(st, "lt", regexp.MustCompile(`^0$`))
-				member, _ := histFact(st, "bool", regexp.MustCompile(`^\(`+reQ(pkgDHCP4)+`\.OptionCodeList\)\.Has(@t\d+)?\(\(\*`+reQ(pkgDHCP4)+`\.DHCPv4\)\.ParameterRequestList(@t\d+)?\(\$0\),`+reQ(code)+`\)$`))
+				member, _ := histFact(st, "bool", regexp.MustCompile(`^\(`+reQ(pkgDHCP4)+`\.OptionCodeList\)\.Has(@(?:[\w$]+·)?t\d+)?\(\(\*`+reQ(pkgDHCP4)+`\.DHCPv4\)\.ParameterRequestList(@(?:[\w$]+·)?t\d+)?\(\$0\),`+reQ(code)+`\)$`))
 				present := or3(has, not3(lstNil), lenPos)
 				return or3(member, and3(req, present))
 			},
@@ -270,17 +270,17 @@ func ruleOptions(c *Ctx, prefix string) {
 		{Pkg: "autoconfigure", Fn: "Handler4", RespIdx: 1, Rows: []optRow{{Name: "autoconfigure", Code: k4("OptionAutoConfigure"),
 			Gate: func(st *State) int {
 				offer := k4("MessageTypeOffer")
-				mt, _ := histEq(st, regexp.MustCompile(`^\(\*`+reQ(pkgDHCP4)+`\.DHCPv4\)\.MessageType(@t\d+)?\(\$1\)$`), offer)
+				mt, _ := histEq(st, regexp.MustCompile(`^\(\*`+reQ(pkgDHCP4)+`\.DHCPv4\)\.MessageType(@(?:[\w$]+·)?t\d+)?\(\$1\)$`), offer)
 				unspec, _ := histFact(st, "bool", regexp.MustCompile(`^\(net\.IP\)\.IsUnspecified\(\$1\.YourIPAddr\)$`))
-				ac, _ := histFact(st, "bool", regexp.MustCompile(`^\(\*`+reQ(pkgDHCP4)+`\.DHCPv4\)\.AutoConfigure(@t\d+)?\(\$0\)#1$`))
+				ac, _ := histFact(st, "bool", regexp.MustCompile(`^\(\*`+reQ(pkgDHCP4)+`\.DHCPv4\)\.AutoConfigure(@(?:[\w$]+·)?t\d+)?\(\$0\)#1$`))
 				return and3(mt, unspec, ac)
 			},
 			Global: []string{pp + "autoconfigure.autoconfigure"}, Stop: &fa}},
 			NilDrop: func(st *State) int {
 				offer := k4("MessageTypeOffer")
-				mt, _ := histEq(st, regexp.MustCompile(`^\(\*`+reQ(pkgDHCP4)+`\.DHCPv4\)\.MessageType(@t\d+)?\(\$1\)$`), offer)
+				mt, _ := histEq(st, regexp.MustCompile(`^\(\*`+reQ(pkgDHCP4)+`\.DHCPv4\)\.MessageType(@(?:[\w$]+·)?t\d+)?\(\$1\)$`), offer)
 				unspec, _ := histFact(st, "bool", regexp.MustCompile(`^\(net\.IP\)\.IsUnspecified\(\$1\.YourIPAddr\)$`))
-				ac, _ := histFact(st, "bool", regexp.MustCompile(`^\(\*`+reQ(pkgDHCP4)+`\.DHCPv4\)\.AutoConfigure(@t\d+)?\(\$0\)#1$`))
+				ac, _ := histFact(st, "bool", regexp.MustCompile(`^\(\*`+reQ(pkgDHCP4)+`\.DHCPv4\)\.AutoConfigure(@(?:[\w$]+·)?t\d+)?\(\$0\)#1$`))
 				return and3(mt, unspec, not3(ac))
 			}},
 		{Pkg: "nbp", Fn: "nbpHandler4", RespIdx: 1, NoEmitStop: true, Rows: []optRow{
@@ -293,12 +293,12 @@ func ruleOptions(c *Ctx, prefix string) {
 		{Pkg: "nbp", Fn: "nbpHandler6", RespIdx: 1, NoEmitStop: true, Rows: []optRow{
 			{Name: "nbp bootfile url (59)", Code: k6("OptionBootfileURL"), Gate: func(st *State) int {
 				v, _ := histEq(st, regexp.MustCompile(`RequestedOptions\(`+inner6+`\.Options\)\[`), k6("OptionBootfileURL"))
-				m, _ := histFact(st, "bool", regexp.MustCompile(`^\(\*?`+reQ(pkgDHCP6)+`\.Message\)\.IsOptionRequested(@t\d+)?\(`+inner6+`,`+reQ(k6("OptionBootfileURL"))+`\)$`))
+				m, _ := histFact(st, "bool", regexp.MustCompile(`^\(\*?`+reQ(pkgDHCP6)+`\.Message\)\.IsOptionRequested(@(?:[\w$]+·)?t\d+)?\(`+inner6+`,`+reQ(k6("OptionBootfileURL"))+`\)$`))
 				return or3(v, m)
 			}, Global: []string{pp + "nbp.opt59"}, Stop: &tr},
 			{Name: "nbp bootfile param (60)", Code: k6("OptionBootfileParam"), Gate: func(st *State) int {
 				v, _ := histEq(st, regexp.MustCompile(`RequestedOptions\(`+inner6+`\.Options\)\[`), k6("OptionBootfileParam"))
-				m, _ := histFact(st, "bool", regexp.MustCompile(`^\(\*?`+reQ(pkgDHCP6)+`\.Message\)\.IsOptionRequested(@t\d+)?\(`+inner6+`,`+reQ(k6("OptionBootfileParam"))+`\)$`))
+				m, _ := histFact(st, "bool", regexp.MustCompile(`^\(\*?`+reQ(pkgDHCP6)+`\.Message\)\.IsOptionRequested(@(?:[\w$]+·)?t\d+)?\(`+inner6+`,`+reQ(k6("OptionBootfileParam"))+`\)$`))
 				o60, _ := histFact(st, "nil", regexp.MustCompile(`^`+reQ(pp+"nbp.opt60")+`$`))
 				return and3(or3(v, m), not3(o60))
 			}, Global: []string{pp + "nbp.opt60"}, Stop: &tr},
